@@ -588,6 +588,23 @@ SITES = [
      [("vw", N), ("cw", N), ("cf", N), ("vf", N)], B, "nat",
      [("victims.policy_weight", "vw"), ("candidate.policy_weight", "cw"), ("victims.freq", "vf"), ("candidate.freq", "cf")],
      r"if (?P<e>[^{]+?) \{ AdmissionResult::Admitted"),
+    # loop conditions of eviction and of the maintenance loop
+    ("Loops", "unsync_evict_stop", "unsync/cache.rs", "evict_lru_entries", 0, "expr",
+     [("w", N), ("wte", N)], B, "nat", [("evicted_policy_weight", "w"), ("weights_to_evict", "wte")],
+     r"for _ in 0\.\.EVICTION_BATCH_SIZE \{ if (?P<e>[^{]+?) \{ break;"),
+    ("Loops", "sync_evict_stop", "sync/base_cache.rs", "evict_lru_entries", 0, "expr",
+     [("evicted", N), ("wte", N)], B, "nat", [("weights_to_evict", "wte")],
+     r"for _ in 0\.\.batch_size \{ if (?P<e>[^{]+?) \{ break;"),
+    ("Loops", "sync_loop_continue", "sync/base_cache.rs", "sync", 0, "expr",
+     [("should_sync", B), ("calls", N), ("max_repeats", N)], B, "nat", [],
+     r"while (?P<e>[^{]+?) \{"),
+    ("Loops", "sync_loop_again", "sync/base_cache.rs", "sync", 0, "expr",
+     [("r_len", N), ("w_len", N), ("rfp", N), ("wfp", N)], B, "nat",
+     [("self.read_op_ch.len()", "r_len"), ("self.write_op_ch.len()", "w_len"),
+      ("READ_LOG_FLUSH_POINT", "rfp"), ("WRITE_LOG_FLUSH_POINT", "wfp")],
+     r"calls \+= 1; should_sync = (?P<e>[^;]+);"),
+    ("Loops", "sync_evict_needed", "sync/base_cache.rs", "sync", 0, "expr",
+     [("weights_to_evict", N)], B, "nat", [], r"if (?P<e>weights_to_evict > 0) \{"),
     # housekeeping trigger
     ("Housekeeper", "should_apply", "common/concurrent/housekeeper.rs", "should_apply", 0, "fn",
      [("ch_len", N), ("ch_flush_point", N), ("syncAfter", N), ("now", N)], B, "nat",
